@@ -106,8 +106,10 @@ func stdJudge(c *Ctx, cs *Case, ro RunOpts, jo JudgeOpts) (string, *ModelOut, *O
 		c.Count("skipped_out_of_domain", 1)
 		c.Count("ood:"+oodClass(m.Res.OOD), 1)
 		// still run the real code: abnormal termination is a violation regardless
-		o := RunLib(cs.Src, withBudget(ro, 2000000))
-		CheckAbnormal(c, o)
+		o := RunLib(cs.Src, withBudget(ro, 3000)) // small budget: unbounded recursion is out of domain and must not exhaust the host stack
+		if o.Panic != "" {
+			CheckAbnormal(c, o)
+		}
 		return "skip", m, o
 	}
 	steps := 0
